@@ -37,9 +37,10 @@ RULES = {
     "R10": "the sample container the code indexes (ThetaHolder.add_theta / get_theta) refuses out-of-range indices and returns the i-th added sample (C10.R3 run here)",
     "R11": "constructor options are live: every attribute the constructor binds from a parameter is read by a method of the class",
     "R13": "the weight of a triple is the sum of exactly its three pairwise distances: log w = distance_factor * log(D[i,j] + D[j,k] + D[i,k]), nothing added inside the logarithm (a triple of identical samples has weight 0)",
+    "R14": "the kernel's returned expression, in polynomial normal form over role atoms, is the documented estimator (alpha = sum of the pairwise variance products, nothing added); a numeric tolerance in it is reported",
     "R12": "the distance matrix handed to the kernel is the recorded one: to_dense writes every stored value at its own (row, col) and its mirror, refusing incomplete matrices (C07.R3 run here)",
 }
-MIN = {"R1": 1, "R2": 7, "R3": 2, "R4": 2, "R5": 3, "R6": 3, "R7": 3, "R8": 5, "R9": 1, "R10": 3, "R11": 1, "R12": 4, "R13": 1}
+MIN = {"R1": 1, "R2": 7, "R3": 2, "R4": 2, "R5": 3, "R6": 3, "R7": 3, "R8": 5, "R9": 1, "R10": 3, "R11": 1, "R12": 4, "R13": 1, "R14": 1}
 TRUSTED = ["distance matrix is symmetric (C07.R3)", "scipy logsumexp(axis=1) reduces the triple axis only", "numpy broadcasting"]
 TECHNIQUE = "polynomial normal form with permutation (S3) symmetry lint; def-use checks of the padding protocol; axis-role lint"
 LEVEL_TEXT = ("Invariance under relabelling of the posterior samples, independence from co-scored plates (axis isolation + "
@@ -686,7 +687,39 @@ def r13(ctx):
               f"(or a pair is missing from the weight)")
 
 
-RULE_FUNCS = [r1, r2, r3, r4, r5, r6, r7, r8, r_derived, r_holder, r_options, r_br12, r13]
+def r14(ctx):
+    """the kernel's return value, as a polynomial normal form over the role atoms (variance / mean of triple member k, mask, distance of a
+    pair), is the estimator the kernel documents: log-sum over triples of  distance_factor * log(D12 + D23 + D13)
+    + sum_e M * 1/2 log(1 / alpha) - sum_e (v1 v2 v3 / (2 alpha^2)) * (v3 (m1 - m2)^2 + v2 (m1 - m3)^2 + v1 (m2 - m3)^2),  alpha = v1 v2 + v2 v3 + v1 v3.
+    Spelling, term order, named intermediates and log(1/x) = -log(x) do not matter; a tolerance added to alpha or to the quadratic form does."""
+    base, f = kernel_form(ctx)
+    pv, pred, mask, dist, env = kernel_names(f)
+    v = lambda k: f"{pv}[:, idx{k}, :]"
+    m = lambda k: f"{pred}[:, idx{k}, :]"
+    alpha = f"({v(1)} * {v(2)} + {v(2)} * {v(3)} + {v(1)} * {v(3)})"
+    df = "distance_factor" if "distance_factor" in f.params else "1.0"
+    ref = (f"logsumexp(np.sum({mask}[:, idx1, :] * 0.5 * np.log(1.0 / {alpha}), axis=-1) + "
+           f"np.sum(-(0.5 * {v(1)} * {v(2)} * {v(3)} / np.square({alpha})) * ({v(3)} * np.square({m(1)} - {m(2)}) + {v(2)} * np.square({m(1)} - {m(3)}) "
+           f"+ {v(1)} * np.square({m(2)} - {m(3)})), axis=-1) + ({df} * np.log({dist}[idx1, idx2] + {dist}[idx2, idx3] + {dist}[idx1, idx3]))[np.newaxis, :], axis=1)")
+    N = Norm(atomizer=kernel_atomizer((pv, pred, mask, dist), f, None), strict=True)
+    want = N.n(parse_expr(ref))
+    if base == want:
+        ctx.ok("R14", f"{f.site()}::estimator", "the returned expression normalises to the documented estimator")
+        return
+    # recognised wrong: a small numeric tolerance enters the score
+    rets = returns(f.node)
+    keep = {"idx1", "idx2", "idx3"}
+    e = inline(rets[0].value, {k: x for k, x in single_defs(f.node).items() if k not in keep})
+    eps = sorted({x.value for x in ast.walk(e) if isinstance(x, ast.Constant) and isinstance(x.value, float) and 0 < abs(x.value) < 1e-3})
+    if eps:
+        ctx.check("R14", f"{f.site()}::estimator", False, "",
+                  f"a tolerance ({', '.join(repr(c) for c in eps)}) enters the score: it is no longer the documented estimator - for variances of the order of "
+                  f"the square root of the tolerance the per-experiment normaliser and the exponent are off by a factor that differs between plates")
+        return
+    raise AnalysisError(f"{f.site()}: the kernel's normal form is not the documented estimator's and the difference is not one this rule can name")
+
+
+RULE_FUNCS = [r1, r2, r3, r4, r5, r6, r7, r8, r_derived, r_holder, r_options, r_br12, r13, r14]
 
 
 def run(ctx):
@@ -703,6 +736,8 @@ def _rep(a, b):
 
 
 WITNESSES = [
+    ("epsilon added to alpha", "batchie.scoring.gaussian_dbal",
+     _rep("        + padded_variances[:, idx1, :] * padded_variances[:, idx3, :]\n    )\n    exp_factor", "        + padded_variances[:, idx1, :] * padded_variances[:, idx3, :]\n        + 1e-8\n    )\n    exp_factor"), ["R14"]),
     ("epsilon inside the triple-distance logarithm", "batchie.scoring.gaussian_dbal",
      _rep("            + distance_matrix[idx1, idx3]\n        )", "            + distance_matrix[idx1, idx3]\n            + np.finfo(float).tiny\n        )"), ["R13"]),
     ("d12 uses idx2 variance", "batchie.scoring.gaussian_dbal", _rep("d12 = padded_variances[:, idx3, :]", "d12 = padded_variances[:, idx2, :]"), ["R1"]),
